@@ -526,8 +526,22 @@ func (pd *perBitData) parseSequenceOf(sizeExtensed bool, params fieldParameters,
 			err := fmt.Errorf("per data out of range")
 			return sliceContent, err
 		}
-		numElements = uint64(pd.bytes[pd.byteOffset])
+		// X.691 10.9.3.5 - 10.9.3.7: unconstrained length determinant (one octet below 128, two below 16K)
+		first := uint64(pd.bytes[pd.byteOffset])
 		pd.byteOffset++
+		if first&0x80 == 0 {
+			numElements = first
+		} else if first&0x40 == 0 {
+			if pd.byteOffset >= uint64(len(pd.bytes)) {
+				err := fmt.Errorf("per data out of range")
+				return sliceContent, err
+			}
+			numElements = (first&0x3f)<<8 | uint64(pd.bytes[pd.byteOffset])
+			pd.byteOffset++
+		} else {
+			err := fmt.Errorf("fragmented length of SEQUENCE OF is not supported")
+			return sliceContent, err
+		}
 		perTrace(1, perBitLog(8, pd.byteOffset, pd.bitsOffset, numElements))
 	}
 	perTrace(2, fmt.Sprintf("Decoding  \"SEQUENCE OF\" struct %s with len(%d)", sliceType.Elem().Name(), numElements))
